@@ -56,6 +56,10 @@ type st38 struct {
 	paid        *big.Int // sum paid out by claimRewards + sum re-delegated by reDelegateRewards
 	last        string
 	nt          string
+	// stale: some delegator re-created its active fund while its rewards checkpoint still lay
+	// before reward records of epochs in which it had no active fund (only narrows the
+	// signature of a rewards violation, never the verdict)
+	stale bool
 }
 
 var fundActive, fundUnStaked = ssc.VerifSysscFundTypes()
@@ -121,11 +125,12 @@ type snap38 struct {
 	w                                      *world
 	undelegated, withdrawn, received, paid *big.Int
 	last, nt                               string
+	stale                                  bool
 }
 
 func (s *st38) snapshot() *snap38 {
 	return &snap38{w: s.v.w.clone(), undelegated: new(big.Int).Set(s.undelegated), withdrawn: new(big.Int).Set(s.withdrawn),
-		received: new(big.Int).Set(s.received), paid: new(big.Int).Set(s.paid), last: s.last, nt: s.nt}
+		received: new(big.Int).Set(s.received), paid: new(big.Int).Set(s.paid), last: s.last, nt: s.nt, stale: s.stale}
 }
 
 // ensure materialises the state of the recorded history on the real contracts.
@@ -140,7 +145,7 @@ func (s *st38) ensure() {
 	for p := n; p > 0 && w == nil; p-- {
 		if sn, ok := y.memo.get(s.hist[:p]).(*snap38); ok {
 			w, start = sn.w.clone(), p
-			s.last, s.nt = sn.last, sn.nt
+			s.last, s.nt, s.stale = sn.last, sn.nt, sn.stale
 			s.undelegated.Set(sn.undelegated)
 			s.withdrawn.Set(sn.withdrawn)
 			s.received.Set(sn.received)
@@ -211,6 +216,21 @@ func (s *st38) activeValue(a int) *big.Int {
 	return new(big.Int).Set(f.Value)
 }
 
+// staleCheckpoint reports whether delegator a has a record without active fund whose rewards
+// checkpoint lies at or before an epoch that has a reward record.
+func (s *st38) staleCheckpoint(a int) bool {
+	d := s.delegator(a)
+	if d == nil || len(d.ActiveFund) != 0 {
+		return false
+	}
+	for e := d.RewardsCheckpoint; e <= s.v.w.epoch; e++ {
+		if len(s.v.w.get(s.y.dsc, string(ssc.VerifSysscRewardKey(e)))) > 0 {
+			return true
+		}
+	}
+	return false
+}
+
 func (s *st38) enabled(o int) bool {
 	s.ensure()
 	if s.y.ops[o].kind == "epoch" {
@@ -231,9 +251,13 @@ func (s *st38) apply(o int) {
 	}
 	switch op.kind {
 	case "delegate":
+		wasStale := s.staleCheckpoint(op.actor)
 		out = s.v.call(who, y.dsc, "delegate", bi(op.amt))
 		if out.ReturnCode != vmcommon.Ok && op.amt < 10 {
 			s.nt = "delegate-below-minimum-rejected"
+		}
+		if d := s.delegator(op.actor); out.ReturnCode == vmcommon.Ok && wasStale && d != nil && d.RewardsCheckpoint <= s.v.w.epoch {
+			s.stale = true
 		}
 	case "unDelegate":
 		val := bi(op.amt)
@@ -275,7 +299,11 @@ func (s *st38) apply(o int) {
 			}
 		}
 	case "reDelegateRewards":
+		wasStale := s.staleCheckpoint(op.actor)
 		out = s.v.call(who, y.dsc, "reDelegateRewards", nil)
+		if d := s.delegator(op.actor); out.ReturnCode == vmcommon.Ok && wasStale && d != nil && d.RewardsCheckpoint <= s.v.w.epoch {
+			s.stale = true
+		}
 		if out.ReturnCode == vmcommon.Ok {
 			// the re-delegated rewards leave the delegation contract towards the validator
 			// contract as the call value of its stake call
@@ -408,7 +436,11 @@ func (s *st38) check() (string, string) {
 		return fail("withdrawn-exceeds-undelegated", fmt.Sprintf("paid out by withdrawals %v > undelegated %v", s.withdrawn, s.undelegated))
 	}
 	if s.paid.Cmp(s.received) > 0 {
-		return fail("rewards-paid-exceed-rewards-received", fmt.Sprintf("rewards paid (claimed + re-delegated) %v > rewards received %v", s.paid, s.received))
+		sig := "rewards-paid-exceed-rewards-received"
+		if s.stale {
+			sig += ":after-delegator-without-active-fund-kept-old-rewards-checkpoint"
+		}
+		return fail(sig, fmt.Sprintf("rewards paid (claimed + re-delegated) %v > rewards received %v", s.paid, s.received))
 	}
 	// harness self-check of the money flows the ghost totals rely on: the contract's balance
 	// is exactly rewards received minus rewards paid (stakes are forwarded to the validator
@@ -424,7 +456,7 @@ func (s *st38) key() string {
 	var sb strings.Builder
 	s.v.w.canon(&sb)
 	// only the slack of the cumulative clauses can influence future verdicts
-	fmt.Fprintf(&sb, "|u-w=%v|r-p=%v", new(big.Int).Sub(s.undelegated, s.withdrawn), new(big.Int).Sub(s.received, s.paid))
+	fmt.Fprintf(&sb, "|u-w=%v|r-p=%v|stale=%v", new(big.Int).Sub(s.undelegated, s.withdrawn), new(big.Int).Sub(s.received, s.paid), s.stale)
 	return sb.String()
 }
 
